@@ -3,7 +3,10 @@ let schemas : (string, Model.schema) Hashtbl.t = Hashtbl.create 16
 
 let handle_directive (fn : string) (args : string list) (obs : string) : bool =
   match fn, args with
-  | "SCHEMA", [ sid ] -> Hashtbl.replace schemas sid (Sexp.schema_of_sexp obs); true
+  | "SCHEMA", [ sid ] ->
+    let sch = Sexp.schema_of_sexp obs in
+    if not (Model.wf sch) then Printf.printf "MISMATCH\tschema %s printed by the runner is not wf (Model/WF.v)\n" sid;
+    Hashtbl.replace schemas sid sch; true
   | _ -> false
 
 let schema sid = try Hashtbl.find schemas sid with Not_found -> failwith ("unknown schema " ^ sid)
